@@ -496,15 +496,40 @@ REAL_ONLY = {"C14": ["v2/bitstream (DefaultOutputBitStream, DefaultInputBitStrea
 
 
 def replay(path):
+    """Re-executes a replay file from its tape alone (in a fresh worker built from /repo's working
+    tree) and reports whether the recorded violation recurs: exit 1 + VIOLATION line if it does."""
     with open(path) as f:
         rf = json.load(f)
     prop = rf["property"]
     binary = build(prop, race=(prop == "C18"))
-    p = subprocess.run([binary, "-replay", path], stdout=subprocess.PIPE, env=dict(os.environ, GOMAXPROCS="1"))
+    if prop == "C19":
+        os.environ["KSIM_CLI"] = build_cli()
+    env = dict(os.environ, GOMAXPROCS="1")
+    if "GORACE" not in env:
+        env["GORACE"] = "halt_on_error=1 exitcode=66"
+    cls = rf.get("class", "")
+    cmd = [binary, "-replay", path]
+    if cls in ("hang", "process-died"):
+        cmd += ["-casecpu", "%ds" % (3 * CASE_CPU.get(prop, CASE_CPU_DEFAULT))]
+    p = subprocess.run(cmd, stdout=subprocess.PIPE, stderr=subprocess.PIPE, env=env)
+    etxt = p.stderr.decode(errors="replace")
+    again = None
+    if cls == "hang":
+        again = p.returncode == 3 and '"hang"' in etxt
+    elif cls == "data-race":
+        again = p.returncode == 66 or "WARNING: DATA RACE" in etxt
+    elif cls == "process-died":
+        again = p.returncode not in (0, 1, 3)
+    if again is not None:
+        print(json.dumps({"prop": prop, "class": cls, "exit_status": p.returncode, "recurs": again, "stderr_head": summarize_death(etxt, p.returncode)}, indent=1))
+        if again:
+            print("VIOLATION property=%s replay=%s" % (prop, path))
+            sys.exit(1)
+        sys.exit(0)
     try:
         final = json.loads(p.stdout.decode().strip().splitlines()[-1])
     except Exception:
-        die2("replay produced no result")
+        die2("replay produced no result (exit status %s): %s" % (p.returncode, etxt[-800:]))
     print(json.dumps({k: final.get(k) for k in ("prop", "v", "class", "detail", "feat", "ev", "tasks")}, indent=1))
     if final.get("v") == "fail":
         print("VIOLATION property=%s replay=%s" % (prop, path))
